@@ -3,6 +3,7 @@ package checks
 import (
 	"encoding/json"
 	"fmt"
+	"math"
 	"sort"
 	"strconv"
 	"strings"
@@ -129,7 +130,13 @@ func c02Exec(c *lib.Ctx, cs c02Case) (obs string, pts []mapPoint, pv any) {
 			obs = strings.Join(db.GetSuggestions(q, cs.Opts.Limit), "\x00")
 			return
 		}
-		obs = uDigest(uItems(db, db.SearchUniversal(q, cs.Opts)))
+		// identify results by their text, not their position: a loader that orders the
+		// merged commands differently must show up as a different answer
+		var sb strings.Builder
+		for _, r := range db.SearchUniversal(q, cs.Opts) {
+			fmt.Fprintf(&sb, "%s:%016x;", r.Command.Command, math.Float64bits(r.Score))
+		}
+		obs = sb.String()
 	})
 	return
 }
@@ -164,11 +171,16 @@ func c02DBs(thorough bool) []dbSpec {
 	for _, t := range triples {
 		out = append(out, dbSpec{Pool: t})
 	}
-	out = append(out, dbSpec{Special: "sugties"}, dbSpec{Special: "forty"})
+	// main file + personal notebook (merged by the loader): equal-scoring notebook entries
+	out = append(out, dbSpec{Pool: []int{4}, Personal: []int{0, 1, 2, 3}}, dbSpec{Pool: []int{0, 22}, Personal: []int{0, 1, 2, 3, 4, 5}}, dbSpec{Pool: []int{}, Personal: []int{2, 1, 0}})
+	out = append(out, dbSpec{Special: "sugties"}, dbSpec{Special: "shortdocs"}, dbSpec{Special: "forty"})
 	return out
 }
 
-var c02Queries = []string{"git", "files", "compress files", "git commit", "list files", "compress", "record changes repository", "zip archive files", "comprss", "fils", "gt", "show folder", "tar"}
+var c02Queries = []string{"git", "files", "compress files", "git commit", "list files", "compress", "record changes repository", "zip archive files", "comprss", "fils", "gt", "show folder", "tar", "deploy", "release app",
+	// long queries: more distinct vocabulary words than a matching command has (sparse dot products)
+	"git commit msg record changes repository save vcs push files compress", "compress files zip archive folder directory tar list find name count lines",
+	"rotate and compress the nightly nginx backup logs fast then archive old files", "sync remote backup host directories nightly schedule jobs logs cleanup"}
 
 func c02Options() []Opts {
 	var out []Opts
@@ -214,7 +226,15 @@ func c02Run(c *lib.Ctx) {
 	sites := map[string]int64{}
 	answers := map[string]bool{}
 	for _, spec := range dbs {
-		for _, q := range c02Queries {
+		qs := c02Queries
+		if spec.Special == "" && spec.Personal == nil && len(spec.Pool) <= 2 {
+			qs = c02Queries[:13] // the long queries need databases with a larger vocabulary
+		}
+		if spec.Special == "forty" {
+			// each execution costs ~1 ms and a case has thousands of schedules: six queries
+			qs = []string{"git", "compress files", "comprss", "list files", c02Queries[15], c02Queries[17]}
+		}
+		for _, q := range qs {
 			for oi := 0; oi <= len(opts); oi++ {
 				caseIdx++
 				if !c.Mine(caseIdx) {
@@ -315,13 +335,14 @@ func c02Run(c *lib.Ctx) {
 	for s, n := range sites {
 		c.Count("deviated_at:"+s, n)
 	}
+	c02Processes(c)
 	c.Rep.Traces = c.Rep.Evaluations
 }
 
 func init() {
 	lib.Register(&lib.Check{
 		ID: "C02", Level: "model_checking",
-		Rule: "map-iteration-order exploration (the runtime's randomised order as scheduler): for every case = (database: 12 identical entries, all sequences of <=2 of a 10-entry tie-rich pool, 12 (quick) / 228 (thorough) longer sequences, the 40-entry database) x 13 queries (lexical, NLP-expanded, typo-fallback) x {NLP, fuzzy} x limit {1,2,50} + GetSuggestions, the execution 'load the database through the real loader, then search' is run under the canonical order and under every schedule deviating at <=1 dynamic range point (<=2 on short databases, thorough), a deviating point taking every permutation (<=4 keys) or reverse / rotate / every adjacent transposition (<=12 keys) / 6 spread transpositions (more keys); the ordered (entry, score-bits) list must be identical. states = cases (canonical executions); transitions = deviating executions; every execution runs the real code (traces validated = evaluations). non-trivial = cases with a non-empty answer",
+		Rule:      "map-iteration-order exploration (the runtime's randomised order as scheduler): for every case = (database: 12 identical entries, all sequences of <=2 of a 10-entry tie-rich pool, 12 (quick) / 228 (thorough) longer sequences, the 40-entry database, a 14-entry database of short overlapping entries, 3 main+notebook pairs merged by LoadDatabaseWithPersonal with equal-scoring notebook entries) x 19 queries (lexical, 11-13-word, NLP-expanded, typo-fallback) x {NLP, fuzzy} x limit {1,2,50} + GetSuggestions, the execution 'load the database through the real loader, then search' is run under the canonical order and under every schedule deviating at <=1 dynamic range point (<=2 on short databases, thorough), a deviating point taking every permutation (<=4 keys) or reverse / rotate / every adjacent transposition (<=12 keys) / 6 spread transpositions (more keys); the ordered (entry, score-bits) list must be identical. states = cases (canonical executions); transitions = deviating executions; every execution runs the real code (traces validated = evaluations). non-trivial = cases with a non-empty answer. Process form: the instrumented binary (`wtf --format json -v`) is run under four forced whole-process map orders (sorted, reverse, rotate, swap) on 30 (database, query) cases and on the shipped 6,619-entry database for 40 queries, and the plain binary five times per case; outputs must be byte-identical after dropping the timing line",
 		Assume:    []string{"all map ranges of the repository are routed through vmap by the build overlay (sites listed under instrumentation)", "sort.Slice is deterministic for a given input order", "maps with more than 4 keys get the menu, not all n! orders"},
 		QuickSecs: 200, ThorSecs: 2400, Graph: true,
 		Run: c02Run,
